@@ -115,6 +115,8 @@ def workloads(thorough):
     w.append(("plain-good", plain("plain-good", True)))
     w.append(("plain-bad", plain("plain-bad", False)))
     w.append(("churn", churn("churn", 25 if thorough else 12, 3000)))
+    if not thorough:
+        w.append(("pp-ipc", S.push_pull("pp-ipc", "ipc", n=120, sizes=(64, 4000, 70000))))
     w.append(("comeback-pull", comeback("comeback-pull", "pull")))
     w.append(("comeback-push", comeback("comeback-push", "push")))
     if thorough:
